@@ -56,6 +56,9 @@ type C12Scenario struct {
 	Eng     EngScenario `json:"eng"`
 	Facts   []*Fact     `json:"facts"`
 	Remove  []string    `json:"remove,omitempty"` // rules removed from the library (RemoveRuleEntry) before storing
+	// the knowledge base is stored once (to a discarded writer) before the removals, and half of the removals go through
+	// KnowledgeBase.RemoveRuleEntry: a store reflects the knowledge base as it is now, not as it was at an earlier store
+	PreStore bool `json:"pre_store,omitempty"`
 }
 
 // ---- generation ----
@@ -253,6 +256,7 @@ func genC12(p *prng, i int) C12Scenario {
 		if len(rules) >= 3 && p.chance(1, 3) {
 			s.Remove = append(s.Remove, rules[(k+1)%len(rules)].Name)
 		}
+		s.PreStore = len(rules)%2 == 0 || len(s.Remove) == 2 // derived: the PRNG stream of older replays is unchanged
 	}
 	// a description that needs escapes in GRL (quotes, backslash, newline): the stream carries it unquoted
 	if kind == "tiny" && p.chance(1, 2) {
@@ -314,7 +318,16 @@ func (s C12Scenario) build() (*ast.KnowledgeLibrary, error) {
 			}
 		}
 	}
-	for _, r := range s.Remove {
+	if s.PreStore {
+		if _, err := storeKB(lib, s.KBName, s.Version, -1, false); err != nil {
+			return nil, fmt.Errorf("store before the removals: %v", err)
+		}
+	}
+	for i, r := range s.Remove {
+		if s.PreStore && i == 1 {
+			lib.GetKnowledgeBase(s.KBName, s.Version).RemoveRuleEntry(r)
+			continue
+		}
 		lib.RemoveRuleEntry(r, s.KBName, s.Version)
 	}
 	return lib, nil
@@ -964,6 +977,13 @@ func c12RemovedRuleRegression() C12Scenario {
 	return s
 }
 
+// the same with a store before the removal (the second store must not repeat the first)
+func c12StoreRemoveStoreRegression() C12Scenario {
+	s := c12RemovedRuleRegression()
+	s.Kind, s.PreStore = "store-remove-store regression", true
+	return s
+}
+
 // the rule of the model-made stream (coq/proofs/CatalogProofs.v vec_rule)
 func modelVectorRule() *Rule {
 	F := aVar(vName("F"))
@@ -1019,10 +1039,12 @@ func runC12Prop(seed uint64, tier string, out string) error {
 	distinct := map[string]bool{}
 	exhLeft := nExh
 	coqBytes := 0
-	for i := -1; i < n; i++ {
+	for i := -2; i < n; i++ {
 		var s C12Scenario
-		if i < 0 {
-			s = c12RemovedRuleRegression() // the regression scenario runs first
+		if i == -2 {
+			s = c12RemovedRuleRegression() // the regression scenarios run first
+		} else if i == -1 {
+			s = c12StoreRemoveStoreRegression()
 		} else {
 			s = genC12(p.fork(), i)
 		}
